@@ -17,7 +17,6 @@ package main
 // closures, foreign types) makes the replay "not attempted".
 
 import (
-	"time"
 	"encoding/json"
 	"fmt"
 	"go/types"
@@ -27,6 +26,7 @@ import (
 	"sort"
 	"strconv"
 	"strings"
+	"time"
 
 	"golang.org/x/tools/go/ssa"
 )
